@@ -214,6 +214,10 @@ pub struct ZCase {
     sigma_min: f64,
     script: Hex,
     tail_seed: u64,
+    /// a call made just before on the same thread (mu, sigma, sigma_min), result ignored: the
+    /// sampler must not carry anything over from one call to the next (memoised constants)
+    #[serde(default)]
+    prev: Option<(f64, f64, f64)>,
 }
 
 pub struct SamplerZ;
@@ -266,11 +270,34 @@ impl Sub for SamplerZ {
             }),
             2 => proptest::collection::vec(any::<u8>(), 0..60),
         ];
-        (mu_strategy(), sigma_pair(), script, any::<u64>()).prop_map(|(mu, (sigma, sigma_min), script, tail_seed)| ZCase { mu, sigma, sigma_min, script: Hex(script), tail_seed }).boxed()
+        let prev = prop_oneof![
+            3 => Just(0u8), // none
+            1 => Just(1u8), // same mu, sigma one ulp away
+            1 => Just(2u8), // same sigma, the other variant's sigma_min
+            1 => Just(3u8), // sigma nearby (1e-9 relative)
+            1 => Just(4u8), // unrelated
+        ];
+        (mu_strategy(), sigma_pair(), script, any::<u64>(), prev).prop_map(|(mu, (sigma, sigma_min), script, tail_seed, pk)| {
+            let prev = match pk {
+                0 => None,
+                1 => Some((mu, f64::from_bits(sigma.to_bits() + 1).min(SIGMA_MAX), sigma_min)),
+                2 => Some((mu + 1.0, sigma.max(SIGMA_MIN_1024), if sigma_min == SIGMA_MIN_512 { SIGMA_MIN_1024 } else { SIGMA_MIN_512 })),
+                3 => Some((mu - 0.25, (sigma * (1.0 + 1e-9)).min(SIGMA_MAX), sigma_min)),
+                _ => Some((-mu, SIGMA_MAX, sigma_min)),
+            };
+            ZCase { mu, sigma, sigma_min, script: Hex(script), tail_seed, prev }
+        }).boxed()
     }
     fn check(&self, c: &ZCase, st: &mut Stats) -> Result<(), Fail> {
         if !(c.mu.abs() <= 32736.0 && c.sigma >= 1.2 && c.sigma <= SIGMA_MAX && c.sigma_min > 0.0 && c.sigma_min <= c.sigma) {
             return Ok(());
+        }
+        if let Some((pm, ps, pmin)) = c.prev {
+            if pm.abs() <= 32736.0 && ps >= 1.2 && ps <= SIGMA_MAX && pmin > 0.0 && pmin <= ps {
+                let mut r = ByteRng::new(vec![], Some(c.tail_seed ^ 0x9e37));
+                let _ = hook::sampler_z(pm, ps, pmin, &mut r);
+                st.count("sampler_calls_preceded_by_a_related_call");
+            }
         }
         let mut mrng = ByteRng::new(c.script.0.clone(), Some(c.tail_seed));
         let trace = model::sampler_z(c.mu, c.sigma, c.sigma_min, &mut || Some(mrng.next_byte()), 10_000);
